@@ -4,6 +4,7 @@ import Dashu.Driver.Div
 import Dashu.Driver.Bits
 import Dashu.Driver.Text
 import Dashu.Model.Serde.Num
+import Dashu.Model.Serde.Log2Cfg
 /-
   Driver of group `cfg` (C19).  Cases are `cfg <conf> <op> <args…>` (evaluate `<op>` as the build
   configuration `<conf>` = `w<bits>-<std|nostd>-<dev|rel>` must: the model of the op instantiated
@@ -168,6 +169,46 @@ def serde (op : String) (args : List String) : Option String :=
     pure (dec1 ((unjsonF B bs).map fun v => (fpvalStr v, 0)))
   | _, _ => none
 
+-- ---------------------------------------------------------------- clause (2): log2 bounds per configuration
+
+def f32Hex (f : Float32) : String := natToHex f.toBits.toNat
+
+def primBits : String → Option Nat
+  | "u8" => some 8 | "u16" => some 16 | "u32" => some 32 | "u64" => some 64 | "u128" => some 128
+  | _ => none
+
+/-- bounds as bit patterns, followed by a marker iff they do not enclose `log2 x` (decided exactly) -/
+def boundsOut (b : Float32 × Float32) (x : Nat) : String :=
+  f32Hex b.1 ++ " " ++ f32Hex b.2 ++ Dashu.Model.NT.enclosureMark b.1 b.2 x 1
+
+/-- `lg.range`: a checksum over the bounds of every value of a range (ties the Lean copy of the
+    estimator to the real one on *all* `u16` inputs), plus the number of values whose bounds do not
+    enclose the logarithm -/
+def rangeOut (std : Bool) (lo hi : Nat) : String := Id.run do
+  let mut acc : Nat := 0
+  let mut bad : Nat := 0
+  for x in [lo:hi] do
+    let b := log2BoundsPrimCfg std x
+    acc := (acc * 1000003 + b.1.toBits.toNat * 65599 + b.2.toBits.toNat) % 2305843009213693951
+    if Dashu.Model.NT.enclosureMark b.1 b.2 x 1 != "" then bad := bad + 1
+  return natToHex acc ++ (if bad = 0 then "" else " !bounds-fail-on-" ++ toString bad ++ "-values")
+
+def logOps (std : Bool) (W : Nat) (op : String) (args : List String) : Option String :=
+  match op, args with
+  | "lg.p", [ty, a] => do
+    let bits ← primBits ty; let x ← parseNat a
+    if x < 2 ^ bits then pure (ok (boundsOut (log2BoundsPrimCfg std x) x)) else none
+  | "lg.u", [a] => do
+    let x ← parseNat a
+    pure (ok (boundsOut (log2BoundsNatCfg std W x) x))
+  | "lg.i", [a] => do
+    let x ← parseInt a
+    pure (ok (boundsOut (log2BoundsNatCfg std W x.natAbs) x.natAbs))
+  | "lg.range", [lo, hi] => do
+    let lo ← parseDecNat lo; let hi ← parseDecNat hi
+    if hi ≤ 65536 ∧ lo ≤ hi then pure (ok (rangeOut std lo hi)) else none
+  | _, _ => none
+
 /-- word size, std?, dev? of a configuration name -/
 def parseConf (c : String) : Option (Nat × String × String) :=
   match c.splitOn "-" with
@@ -196,8 +237,8 @@ def dispatch : Dispatch := fun _ op args =>
     let (W, s, p) ← parseConf conf
     pure (ok ("w" ++ toString W ++ " " ++ s ++ " " ++ p))
   | "cfg", conf :: iop :: iargs => do
-    let (W, _, _) ← parseConf conf
-    inner W iop iargs
+    let (W, s, _) ← parseConf conf
+    if iop.startsWith "lg." then logOps (s == "std") W iop iargs else inner W iop iargs
   | "cfgall", iop :: iargs => do
     let a ← inner 64 iop iargs
     let b ← inner 32 iop iargs
